@@ -331,6 +331,11 @@ def check(ctx):
     # 'one owner per pool slot' across the OgreUnique -> OgreArc conversion (shared with C14 R14.5 / R14.8): a conversion that lets the unique handle's Drop run frees
     # the slot the new shared handle still owns -- the slot is handed out twice (two accepted events in one slot) and freed twice
     __import__("importlib").import_module("props.C14").check_unique_to_shared(ctx, "R01.10")
+    # R01.11 an accepted event still buffered when the streams are told to end IS yielded: the end flag is consulted only after the container answered empty (C06 R06.2)
+    sub6 = util.fresh_ctx(ctx, "C06")
+    util.guarded(ctx, importlib.import_module("props.C06").check, sub6)
+    for o in sub6.obs:
+        if o["rule"] == "R06.2": ctx.ob("R01.11", o["key"], o["ok"], o["site"], o["detail"], o["nontrivial"])
     ctx.floor("R01.1", 20); ctx.floor("R01.2", 25); ctx.floor("R01.3", 12); ctx.floor("R01.4", 10); ctx.floor("R01.5", 30)
 
 
